@@ -30,6 +30,22 @@
 //!  * ["apply", k, "replace"|"peek"]  apply slot k to a FRESH register file and read everything from it;
 //!    "replace": the fresh file becomes the current one, "peek": it is dropped again.  Reports the source's
 //!    current values ("cur") and the fresh file's values ("after").  An empty slot yields null.
+//!
+//! Round 4 additions (rejected operations leave no trace; snapshots are values also under observation):
+//!  * ["badload", KIND]  `CoreRuntime::load_snapshot(path)` on the CURRENT, running runtime with a file the crate is
+//!    expected to reject (the request's "bad" object maps KIND to a path prepared by the Python side: missing file,
+//!    garbage, truncated archive, wrong magic/version, wrong registers.bin length, RAM size mismatch, ...).  Reports
+//!    read-all before/after and whether the call returned Err ("rej").  The bare `LlamaState` has no load path.
+//!  * ["rtf", KIND]  as "rtf", but the brand-new runtime first attempts to load the bad file KIND (reported as
+//!    "pre_rej" + its read-all "mid") and then loads the valid file.
+//!  * ["badname", "set"|"get"|"setflag"|"getflag", NAME, v]  by-name facade access with a NAME that is no register
+//!    (`CoreRuntime::set_reg/get_reg/set_flag/get_flag` ignore it); read-all before/after.
+//!  * ["observe", k, WHAT, arg]  read-only use of the live snapshot in slot k (compare with slot `arg` / iterate /
+//!    clone / pack / run one instruction from a copy of it); reports what the snapshot restores into a fresh
+//!    register file before ("pre") and after ("post") the observation, likewise for the operand slot
+//!    ("opre"/"opost").  An empty slot yields null.
+//!  verb "template": save a snapshot of a brand-new runtime whose registers were set from the request (the valid
+//!  archive the Python side derives the bad files from).
 use crate::cpu::{canon, HashBus};
 use crate::util::err;
 use sc62015_core::llama::eval::LlamaExecutor;
@@ -78,16 +94,96 @@ impl Drop for TempFile {
 }
 
 /// save_snapshot on `rt`, load_snapshot into a brand-new runtime, which is returned.
-fn file_roundtrip(rt: &CoreRuntime, dir: &str, serial: u64) -> Result<CoreRuntime, String> {
+fn file_roundtrip(
+    rt: &CoreRuntime,
+    dir: &str,
+    serial: u64,
+    bad_first: Option<&str>,
+) -> Result<(CoreRuntime, Option<(bool, Value)>), String> {
     let path = std::path::Path::new(dir).join(format!("c08-{}-{}.pcsnap", std::process::id(), serial));
     let guard = TempFile(path);
     rt.save_snapshot(&guard.0)
         .map_err(|e| format!("save_snapshot: {e}"))?;
     let mut fresh = CoreRuntime::new();
+    let mut pre = None;
+    if let Some(bad) = bad_first {
+        let rejected = fresh.load_snapshot(std::path::Path::new(bad)).is_err();
+        pre = Some((rejected, read_all(&LlamaState::new(), &fresh)));
+    }
     fresh
         .load_snapshot(&guard.0)
         .map_err(|e| format!("load_snapshot: {e}"))?;
-    Ok(fresh)
+    Ok((fresh, pre))
+}
+
+fn bad_path<'a>(bad: Option<&'a Value>, kind: &str) -> Result<&'a str, String> {
+    bad.and_then(|b| b.get(kind))
+        .and_then(|v| v.as_str())
+        .ok_or_else(|| format!("no bad snapshot file of kind {kind} in the request"))
+}
+
+/// What a snapshot restores into a fresh register file (both register files' slots), read through `read_all`.
+fn probe(s_st: &Snap, s_rt: &Snap, rt: &mut CoreRuntime) -> Result<Value, String> {
+    let fresh_st = apply_snapshot(s_st)?;
+    let fresh_rt = apply_snapshot(s_rt)?;
+    let old = std::mem::replace(&mut rt.state, fresh_rt);
+    let v = read_all(&fresh_st, rt);
+    rt.state = old;
+    Ok(v)
+}
+
+fn snap_map(s: &Snap) -> HashMap<String, u32> {
+    match s {
+        Snap::Direct(m) => m.clone(),
+        Snap::Blob(payload, temps) => {
+            let mut m = unpack_registers(payload).unwrap_or_default();
+            for (k, v) in temps.iter() {
+                m.insert(k.clone(), *v);
+            }
+            m
+        }
+    }
+}
+
+/// Read-only uses of a live snapshot (shared references only); the returned number is informational.
+fn observe(s: &Snap, other: Option<&Snap>, what: &str, arg: &Value) -> u64 {
+    match what {
+        "diff" | "rdiff" | "eq" => {
+            let a = snap_map(s);
+            let b = other.map(snap_map).unwrap_or_default();
+            let (l, r) = if what == "rdiff" { (&b, &a) } else { (&a, &b) };
+            let mut n = 0u64;
+            for (k, v) in l.iter() {
+                if r.get(k).copied().unwrap_or(0) != *v {
+                    n += 1;
+                }
+            }
+            n + (a == b) as u64
+        }
+        "to_dict" | "repr" => {
+            let mut m = snap_map(s);
+            let n = m.len() as u64;
+            m.clear();
+            n
+        }
+        "pack" => match s {
+            Snap::Direct(m) => pack_registers(m).len() as u64,
+            Snap::Blob(p, _) => unpack_registers(p).map(|m| m.len() as u64).unwrap_or(0),
+        },
+        "step" => {
+            // the analogue of Python's CPUStepper: run one instruction on a register file restored from the snapshot
+            let bytes = arg.as_str().and_then(parse_hex).unwrap_or_default();
+            match apply_snapshot(s) {
+                Ok(mut state) => {
+                    let mut bus = HashBus::new(0);
+                    let _ = exec_one(&mut state, &mut bus, &bytes, 0);
+                    collect_registers(&state).len() as u64
+                }
+                Err(_) => 0,
+            }
+        }
+        _ => 0,
+    }
 }
 
 fn reg_of(name: &str) -> Option<RegName> {
@@ -252,6 +348,7 @@ fn run_seq(
     ops: &[Value],
     rt: &mut CoreRuntime,
     dir: Option<&str>,
+    bad: Option<&Value>,
     restored: &mut bool,
     files: &mut u64,
 ) -> Result<Vec<Value>, String> {
@@ -313,11 +410,85 @@ fn run_seq(
                 let (fresh_st, _) = roundtrip(&st, true)?;
                 *files += 1;
                 *restored = true;
-                let fresh_rt = file_roundtrip(rt, dir, *files)?;
+                let bad_first = match arr.get(1).and_then(|v| v.as_str()) {
+                    Some(kind) => Some(bad_path(bad, kind)?),
+                    None => None,
+                };
+                let (fresh_rt, pre) = file_roundtrip(rt, dir, *files, bad_first)?;
                 st = fresh_st;
                 *rt = fresh_rt;
                 let after = read_all(&st, rt);
-                out.push(json!({"before": before, "after": after, "blob": ""}));
+                match pre {
+                    Some((rejected, mid)) => out.push(json!({"before": before, "after": after, "blob": "",
+                        "mid": mid, "pre_rej": {"st": true, "rt": rejected}})),
+                    None => out.push(json!({"before": before, "after": after, "blob": ""})),
+                }
+            }
+            "badload" => {
+                let kind = arr.get(1).and_then(|v| v.as_str()).ok_or("badload kind")?;
+                let path = bad_path(bad, kind)?;
+                let before = read_all(&st, rt);
+                *restored = true; // whatever the call did to the session runtime: start the next history afresh
+                let r = rt.load_snapshot(std::path::Path::new(path));
+                let why = r.as_ref().err().map(|e| e.to_string()).unwrap_or_default();
+                let after = read_all(&st, rt);
+                out.push(json!({"before": before, "after": after, "rej": {"st": true, "rt": r.is_err()},
+                                "why": why}));
+            }
+            "badname" => {
+                let how = arr.get(1).and_then(|v| v.as_str()).ok_or("badname verb")?;
+                let name = arr.get(2).and_then(|v| v.as_str()).ok_or("badname name")?;
+                let v = arr.get(3).and_then(|v| v.as_u64()).unwrap_or(0) as u32;
+                if NAMES.contains(&name) || XNAMES.contains(&name) || WNAMES.contains(&name) {
+                    return Err(format!("badname: {name} is a register name"));
+                }
+                let before = read_all(&st, rt);
+                match how {
+                    "set" => rt.set_reg(name, v),
+                    "get" => {
+                        let _ = rt.get_reg(name);
+                    }
+                    "setflag" => rt.set_flag(name, (v & 0xFF) as u8),
+                    "getflag" => {
+                        let _ = rt.get_flag(name);
+                    }
+                    other => return Err(format!("badname: unknown access {other}")),
+                }
+                let after = read_all(&st, rt);
+                out.push(json!({"before": before, "after": after}));
+            }
+            "observe" => {
+                let k = arr.get(1).and_then(|v| v.as_u64()).ok_or("observe slot")? as usize;
+                let what = arr.get(2).and_then(|v| v.as_str()).ok_or("observe kind")?;
+                let arg = arr.get(3).cloned().unwrap_or(Value::Null);
+                if k >= SLOTS {
+                    return Err(format!("snapshot slot {k} out of range"));
+                }
+                let j = arg.as_u64().map(|j| j as usize).filter(|j| *j < SLOTS);
+                match (slots_st[k].clone(), slots_rt[k].clone()) {
+                    (Some(s_st), Some(s_rt)) => {
+                        let o_st = j.and_then(|j| slots_st[j].clone());
+                        let o_rt = j.and_then(|j| slots_rt[j].clone());
+                        // operand: the other live snapshot, else a snapshot of the current register file
+                        let cur_st = take_snapshot(&st, false);
+                        let cur_rt = take_snapshot(&rt.state, false);
+                        let pre = probe(&s_st, &s_rt, rt)?;
+                        let opre = match (&o_st, &o_rt) {
+                            (Some(a), Some(b)) => Some(probe(a, b, rt)?),
+                            _ => None,
+                        };
+                        let n_st = observe(&s_st, Some(o_st.as_ref().unwrap_or(&cur_st)), what, &arg);
+                        let n_rt = observe(&s_rt, Some(o_rt.as_ref().unwrap_or(&cur_rt)), what, &arg);
+                        let post = probe(&s_st, &s_rt, rt)?;
+                        let mut o = json!({"pre": pre, "post": post, "n": {"st": n_st, "rt": n_rt}});
+                        if let (Some(a), Some(b), Some(opre)) = (&o_st, &o_rt, opre) {
+                            o["opre"] = opre;
+                            o["opost"] = probe(a, b, rt)?;
+                        }
+                        out.push(o);
+                    }
+                    _ => out.push(Value::Null),
+                }
             }
             "exec" => {
                 let hex = arr.get(1).and_then(|v| v.as_str()).ok_or("exec bytes")?;
@@ -383,6 +554,7 @@ pub fn handle(verb: &str, req: &Value, sess: &mut State) -> Value {
                 None => return err("c08.run needs seqs"),
             };
             let dir = req.get("dir").and_then(|v| v.as_str());
+            let bad = req.get("bad");
             if sess.rt.is_none() {
                 sess.rt = Some(CoreRuntime::new());
             }
@@ -394,12 +566,33 @@ pub fn handle(verb: &str, req: &Value, sess: &mut State) -> Value {
                     Some(o) => o,
                     None => return err("sequence is not an array"),
                 };
-                match run_seq(ops, rt, dir, restored, files) {
+                match run_seq(ops, rt, dir, bad, restored, files) {
                     Ok(obs) => results.push(json!({"obs": obs})),
                     Err(e) => results.push(json!({"error": e})),
                 }
             }
             json!({"ok": true, "results": results})
+        }
+        "template" => {
+            let path = match req.get("path").and_then(|v| v.as_str()) {
+                Some(p) => p,
+                None => return err("c08.template needs path"),
+            };
+            let mut rt = CoreRuntime::new();
+            if let Some(regs) = req.get("regs").and_then(|v| v.as_array()) {
+                for pair in regs {
+                    let name = pair.get(0).and_then(|v| v.as_str()).unwrap_or("");
+                    let v = pair.get(1).and_then(|v| v.as_u64()).unwrap_or(0) as u32;
+                    if reg_of(name).is_none() {
+                        return err(format!("c08.template: unknown register {name}"));
+                    }
+                    rt_set(&mut rt, name, v);
+                }
+            }
+            match rt.save_snapshot(std::path::Path::new(path)) {
+                Ok(()) => json!({"ok": true}),
+                Err(e) => err(format!("c08.template: save_snapshot: {e}")),
+            }
         }
         _ => err(format!("unknown c08 verb {verb}")),
     }
